@@ -6,10 +6,54 @@ Local Open Scope char_scope.
 
 Definition tag (k:string) (l:list sx) : sx := SL (SA (s_ k) :: l).
 
-(* ---- numbers: (i z) (f m e) (nz) (inf neg) (nan) (b bool) *)
+(* ---- big integers travel in hexadecimal (linear-time codecs; decimal text of Base.sx_Z is quadratic) *)
+Fixpoint pos_bits (p:positive) : list bool :=           (* least significant first *)
+  match p with xH => [true] | xO q => false :: pos_bits q | xI q => true :: pos_bits q end.
+Definition hexchar (a b c d:bool) : ascii :=             (* a = least significant *)
+  let n := ((if a then 1 else 0) + (if b then 2 else 0) + (if c then 4 else 0) + (if d then 8 else 0))%nat in
+  ascii_of_nat (if (n <? 10)%nat then 48 + n else 87 + n).
+Fixpoint nibbles (l:list bool) (acc:str) : str :=
+  match l with
+  | a :: b :: c :: d :: r => nibbles r (hexchar a b c d :: acc)
+  | [a; b; c] => hexchar a b c false :: acc
+  | [a; b] => hexchar a b false false :: acc
+  | [a] => hexchar a false false false :: acc
+  | [] => acc
+  end.
+Definition hex_of_Z (z:Z) : str :=
+  match z with
+  | Z0 => ["0"]
+  | Zpos p => nibbles (pos_bits p) []
+  | Zneg p => "-" :: nibbles (pos_bits p) []
+  end.
+Definition hexval (c:ascii) : option nat :=
+  let n := nat_of c in
+  if ((48 <=? n) && (n <=? 57))%nat then Some (n - 48)%nat
+  else if ((97 <=? n) && (n <=? 102))%nat then Some (n - 87)%nat else None.
+Definition push_bit (z:Z) (b:bool) : Z := if b then Z.succ_double z else Z.double z.
+Fixpoint hex_digits (s:str) (acc:Z) : option Z :=
+  match s with
+  | [] => Some acc
+  | c :: r =>
+      match hexval c with
+      | Some n =>
+          let t k := Nat.testbit n k in
+          hex_digits r (push_bit (push_bit (push_bit (push_bit acc (t 3%nat)) (t 2%nat)) (t 1%nat)) (t 0%nat))
+      | None => None
+      end
+  end.
+Definition Z_of_hex (s:str) : option Z :=
+  match s with
+  | [] => None
+  | c :: r => if Ascii.eqb c "-" then match r with [] => None | _ => option_map Z.opp (hex_digits r 0%Z) end
+              else hex_digits s 0%Z
+  end.
+Definition sx_Zh (z:Z) : sx := SA (hex_of_Z z).
+
+(* ---- numbers: (i hex) (f m e) (nz) (inf neg) (nan) (b bool) *)
 Definition sx_num (n:num) : sx :=
   match n with
-  | NInt z => tag "i" [sx_Z z]
+  | NInt z => tag "i" [sx_Zh z]
   | NFlt m e => tag "f" [sx_Z m; sx_Z e]
   | NNegZero => tag "nz" []
   | NInf neg => tag "inf" [sx_bool neg]
@@ -20,7 +64,7 @@ Definition num_of_sx (x:sx) : option num :=
   match x with
   | SL [SA k] => if eqs k (s_ "nz") then Some NNegZero else if eqs k (s_ "nan") then Some NNaN else None
   | SL [SA k; SA a] =>
-      if eqs k (s_ "i") then option_map NInt (Z_of_str a)
+      if eqs k (s_ "i") then option_map NInt (Z_of_hex a)
       else if eqs k (s_ "inf") then option_map NInf (bool_of_sx (SA a))
       else if eqs k (s_ "b") then option_map NBool (bool_of_sx (SA a))
       else None
@@ -145,14 +189,14 @@ Definition run_as_words (x:sx) : sx :=
 (* text -> () | (z) : Python int(text) *)
 Definition run_int_of_str (x:sx) : sx :=
   match x with
-  | SA s => match py_int_of_str s with Some z => SL [sx_Z z] | None => SL [] end
+  | SA s => match py_int_of_str s with Some z => SL [sx_Zh z] | None => SL [] end
   | _ => sx_bad
   end.
 
 (* z -> res num : Python float(z) *)
 Definition run_float_of_int (x:sx) : sx :=
   match x with
-  | SA s => match Z_of_str s with Some z => sx_res sx_num (float_of_Z z) | None => sx_bad end
+  | SA s => match Z_of_hex s with Some z => sx_res sx_num (float_of_Z z) | None => sx_bad end
   | _ => sx_bad
   end.
 
